@@ -190,6 +190,8 @@ pub fn domain(f: Family, k: Kind, refs: &Refs, level: u8) -> Vec<Vec<u8>> {
 					"s://h//x/y".to_string(), "s://h//x/z".to_string(), "s://h//x/y?q".to_string(), "s://h//x/y?r".to_string(), "s://h//x/y#f".to_string(), "s://h//x".to_string(),
 					"s://h//x/".to_string(),
 					"s:p#a?b".to_string(), "s:p#a%3Fb".to_string(), "s:p#a%3fb".to_string(), "s:p?a#b?c".to_string(), "s:p?a#b%3Fc".to_string(),
+					"s:/#a/../b".to_string(), "s:/#b".to_string(), "s:/#./a".to_string(), "s:/#a".to_string(), "s:/#a?b".to_string(), "s:/#a%3Fb".to_string(), "s:/?a/../b".to_string(),
+					"s:/?b".to_string(), "s:/#".to_string(), "s:/".to_string(),
 					"s://[::a]/p".to_string(), "s://[::A]/p".to_string(), "s://h:9/".to_string(), "s://h:10/".to_string(), "s://h:70000/".to_string(),
 					"s://[::1]/a".to_string(), "s://%5B%3A%3A1%5D/a".to_string(), "s://[::01]/a".to_string(), "s://u%40h/a".to_string(), "s://u@h/a".to_string(),
 					"s://h%3A80/a".to_string(), "s://h:80/a".to_string(), "s://[::1]".to_string(), "s://%5B%3A%3A1%5D".to_string(),
@@ -214,6 +216,20 @@ pub fn domain(f: Family, k: Kind, refs: &Refs, level: u8) -> Vec<Vec<u8>> {
 		}
 	};
 	if matches!(k, Kind::Segment | Kind::UserInfo | Kind::Host | Kind::Query | Kind::Fragment) {
+		// equal prefixes of 7 / 8 / 15 / 16 bytes, then a difference in spelling only, a real difference,
+		// and (IRI) a multi-byte character straddling the block boundary
+		for n in [7usize, 8, 15, 16] {
+			let pre = "abcdefghijklmnopqrstuvwxyz"[..n].to_string();
+			out.push(format!("{pre}x").into_bytes());
+			out.push(format!("{pre}%78").into_bytes());
+			out.push(format!("{pre}y").into_bytes());
+			if f == Family::Iri {
+				out.push(format!("{pre}\u{e9}x").into_bytes());
+				out.push(format!("{pre}\u{e9}%78").into_bytes());
+				out.push(format!("{pre}\u{e9}y").into_bytes());
+				out.push(format!("{pre}%C3%A9x").into_bytes());
+			}
+		}
 		// systematic part: every text of <= 2 tokens that is valid for the component
 		out.extend(products2(&component_tokens(f, level)));
 		out.push("k".repeat(70).into_bytes());
